@@ -360,6 +360,7 @@ func execC15(spec *RunSpec) *Result {
 	}
 	rep := simrt.End()
 	res.addStat("steps", rep.Steps)
+	res.addStat("clock_span_ns", rep.ClockSpanNs)
 	res.addStat("cases", int64(len(spec.Ops)))
 	for k, v := range sfs.Fired() {
 		res.addStat("fault_fs_"+k, v)
@@ -589,6 +590,7 @@ func execC15Conc(spec *RunSpec) *Result {
 	rep := cr.rep
 	res.addStat("cases", int64(len(spec.Ops)))
 	res.addStat("steps", rep.Steps)
+	res.addStat("clock_span_ns", rep.ClockSpanNs)
 	res.addStat("task_switches", int64(len(rep.Switches)))
 	res.Switches = rep.Switches
 	// history: edits are writes, every (render, file) marker is a read; stamped with the kernel's step counter
